@@ -676,16 +676,32 @@ pub fn one_run(ctx: &Ctx, out: &mut Outcome, run_seed: u64) {
         min_bytes_per_tick: 1200,
         profiles: ALL_RANDOM_PROFILES.to_vec(),
     };
-    let cfg = gen.gen(&mut r);
+    let mut cfg = gen.gen(&mut r);
+    // flood runs (own random stream): hundreds to thousands of tiny reliable messages per tick, so that one packet
+    // carries more messages than fit a one-byte count and thousands of ids are acknowledged by one ack packet
+    let mut fr = Rng::new(run_seed ^ 0xF100D);
+    let flood = fr.chance(1, 8);
+    if flood {
+        crate::props::c01::flood_cfg(&mut cfg, &mut fr);
+        out.count("flood_runs");
+    }
     let plan = Plan {
-        fault_ticks: r.range(10, if ctx.thorough() { 200 } else { 80 }),
+        fault_ticks: if flood { fr.range(10, 40) } else { r.range(10, if ctx.thorough() { 200 } else { 80 }) },
         rate_x100: *r.pick(&[100u64, 250, 600]),
-        max_msgs: r.range(20, 400),
-        kinds: vec![Kind::ReliableOrdered, Kind::ReliableUnordered, Kind::Unreliable],
+        max_msgs: if flood { fr.range(2500, 12_000) } else { r.range(20, 400) },
+        kinds: if flood {
+            match fr.below(3) {
+                0 => vec![Kind::ReliableOrdered],
+                1 => vec![Kind::ReliableUnordered],
+                _ => vec![Kind::ReliableOrdered, Kind::ReliableUnordered, Kind::Unreliable],
+            }
+        } else {
+            vec![Kind::ReliableOrdered, Kind::ReliableUnordered, Kind::Unreliable]
+        },
         allow_large: r.chance(1, 8),
         tail_ticks: r.range(0, 20),
         liveness: false,
-        flood: false,
+        flood,
         max_len: 100_000,
         overload: false,
     };
